@@ -1,9 +1,10 @@
 (* C16 — spatial searches return exactly what brute force returns.
-   Statements only; proofs are in ProofsSort.v, ProofsKnn.v, ProofsHd.v, ProofsHop.v.
+   Statements only; proofs are in ProofsSort.v, ProofsKnn.v, ProofsHd.v, ProofsHop.v, ProofsBuild.v,
+   ProofsSnap.v, ProofsKnnCfg.v.
    All distances are squared Euclidean distances over Z (see Model.v). *)
 From Coq Require Import ZArith List Bool Lia Permutation.
 Import ListNotations.
-From FV.C16 Require Import Model ProofsSort ProofsKnn ProofsKnnCfg ProofsHd ProofsHop ProofsBuild ProofsScale.
+From FV.C16 Require Import Model ModelSnap ProofsSort ProofsKnn ProofsKnnCfg ProofsHd ProofsHop ProofsBuild ProofsScale ProofsSnap.
 From FV.C16.gen Require Import Bounds KnnCfg.
 Open Scope Z_scope.
 
@@ -230,6 +231,82 @@ Proof.
   - unfold sc. destruct B; [congruence|discriminate].
 Qed.
 
+(* ---- the snapped root cell of build_octree_node as of /repo 7a2f8fc (ModelSnap.v, ProofsSnap.v):
+   w0 = smallest power of two >= 0.51 * extent, centre = np.round((min + max) / 2 / leaf_w) * leaf_w
+   with leaf_w = w0 / 2^depth.  For EVERY non-empty integer point set and every depth >= 5 (the
+   code: 8) the root cell contains all points and its half width is divisible by 2^depth ... *)
+Theorem C16_snapped_root_contains :
+  forall depth bpts, (5 <= depth)%nat -> bpts <> [] ->
+    (2 ^ Z.of_nat depth | width (snapped_box (snap_scale depth) bpts)) /\
+    forall p, In p bpts -> inbox (snapped_box (snap_scale depth) bpts) (scale_pt (snap_scale depth) p) = true.
+Proof. intros depth bpts Hd Hne. apply snapped_box_props; auto. Qed.
+
+(* ... hence the octree below it, built without rounding, loses no point and keeps every point
+   inside the cells above it (the hypotheses of the search theorems) ... *)
+Theorem C16_snapped_octree_valid :
+  forall depth bpts pts, (5 <= depth)%nat -> bpts <> [] -> incl pts bpts ->
+    validb (snapped_octree depth bpts pts) = true /\
+    tree_of (snapped_octree depth bpts pts) (map (scale_pt (snap_scale depth)) pts).
+Proof. intros. apply snapped_octree_valid_complete; auto. Qed.
+
+(* ... and the searches on it equal brute force, end to end, for every input *)
+Theorem C16_knn_on_snapped_octree :
+  forall depth pts k bound q, (5 <= depth)%nat -> pts <> [] ->
+    let t := snapped_octree depth pts pts in
+    knn (S (size t)) k bound q t =
+      Some (knn_spec k bound q (map (scale_pt (snap_scale depth)) pts)).
+Proof.
+  intros depth pts k bound q Hd Hne t.
+  destruct (snapped_octree_valid_complete depth pts pts Hd Hne (incl_refl _)) as [Hv Ht].
+  apply knn_eq_spec; auto. apply pop_min_ok.
+Qed.
+
+Theorem C16_hausdorff_on_snapped_octree :
+  forall depth A B directed, (5 <= depth)%nat -> A <> [] -> B <> [] ->
+    let sc := map (scale_pt (snap_scale depth)) in
+    let tA := snapped_octree depth (A ++ B) A in
+    let tB := snapped_octree depth (A ++ B) B in
+    hausdorff pop_min (S (size tA + size tB)) directed tA tB =
+      Some (if directed then hausdorff_directed_spec (sc A) (sc B) else hausdorff_spec (sc A) (sc B)).
+Proof.
+  intros depth A B directed Hd HA HB sc tA tB.
+  assert (A ++ B <> []) as HAB by (destruct A; [congruence|discriminate]).
+  destruct (snapped_octree_valid_complete depth (A ++ B) A Hd HAB (incl_appl _ (incl_refl _))) as [HvA HtA].
+  destruct (snapped_octree_valid_complete depth (A ++ B) B Hd HAB (incl_appr _ (incl_refl _))) as [HvB HtB].
+  apply hausdorff_correct; auto; try lia.
+  - apply pop_min_ok.
+  - unfold sc. destruct A; [congruence|discriminate].
+  - unfold sc. destruct B; [congruence|discriminate].
+Qed.
+
+(* Why the FLOAT construction agrees with the exact one on the snapped grid: centre and half width
+   of every cell of the tree are integer multiples of one power of two u = 2^e (the leaf half
+   width; in the code's units u = w0 / 2^depth) and every cell lies inside [-bnd, bnd]^3 with
+   bnd = |root centre| + w0.  Integer multiples of a power of two u of magnitude < 2^53 * u are
+   binary64 numbers, so as long as bnd / u < 2^53 the sums and differences cx +- w that
+   build_octree_node forms are computed without rounding (this last step is the only part of
+   the argument that is not machine-checked; the harness replays the binary64 descent). *)
+Theorem C16_snapped_cells_on_grid :
+  forall depth bpts pts, bpts <> [] ->
+  exists e, 0 <= e /\
+    let '(cx, cy, cz, w) := snapped_box (snap_scale depth) bpts in
+    forall bx, In bx (boxes (snapped_octree depth bpts pts)) ->
+      on_grid (2 ^ e) (Z.max (Z.abs cx) (Z.max (Z.abs cy) (Z.abs cz)) + w) bx.
+Proof. intros. apply snapped_cells_on_grid; auto. Qed.
+
+(* non-vacuity: a point set far from the origin, with ties and a point on the root centre plane;
+   extent 10 -> w0 = 8 = 2^3, scaled half width 256 * 8, 4 + 8 * 7 .. cells *)
+Definition snap_pts : list P :=
+  [(1000003, -7, 12); (1000013, -7, 12); (1000008, -2, 17); (1000008, -2, 17); (1000003, 3, 22); (1000010, -7, 13)].
+Example C16_snapped_inhabited :
+  snapped_box (snap_scale 8) snap_pts = (256 * 1000008, 256 * (-2), 256 * 17, 256 * 8) /\
+  validb (snapped_octree 8 snap_pts snap_pts) = true /\
+  (40 <? size (snapped_octree 8 snap_pts snap_pts))%nat = true /\
+  forallb (box_on_grid 8 (256 * 1000008 + 256 * 8)) (boxes (snapped_octree 8 snap_pts snap_pts)) = true /\
+  round_half_even 5 2 = 2 /\ round_half_even 7 2 = 4 /\ round_half_even (-5) 2 = -2 /\ snap_lw 1 = 1 /\
+  snap_lw 3 = 2 /\ snap_lw 25600 = 16384.
+Proof. vm_compute. repeat split; reflexivity. Qed.
+
 (* Tie T for the control flow of the k-nearest search: gen/KnnCfg.v holds the
    decision points read off the current source (which comparison prunes a
    popped node against the k-th best and against the bound, or/and, whether
@@ -327,3 +404,5 @@ Print Assumptions C16_elemental_docstring_differs.
 Print Assumptions C16_knn_on_exact_octree.
 Print Assumptions C16_gen_bounds_sound.
 Print Assumptions C16_knn_translated_search_correct.
+Print Assumptions C16_knn_on_snapped_octree.
+Print Assumptions C16_snapped_cells_on_grid.
